@@ -43,8 +43,8 @@ def build(world):
     return units
 
 
-def native_race(version="2.2", race_child=1, at_write=0, children=(1,)):
-    """One schedule: commands buffered for `children` of sleeping node 1; the listener releases them at a wake and is held
+def native_race(version="2.2", race_child=(1, 2), at_write=0, children=((1, 2),)):
+    """One schedule: commands buffered for the (child, value type) keys `children` of sleeping node 1; the listener releases them at a wake and is held
     inside its write number `at_write`; meanwhile an application task sends a newer value for `race_child`; then one more wake.
     Checks the property's clauses on the write log: per key the last line written is the last value sent, every line
     written was sent, and no value is written more often than it was sent.  Returns (ok, description)."""
@@ -69,13 +69,14 @@ def native_race(version="2.2", race_child=1, at_write=0, children=(1,)):
                 await gate.wait()
             await orig(line)
         node = Node(1, 17, version, sleeping=True)
-        for ch in set(children) | {race_child}:
-            node.add_child(ch, 0)
+        for ch, _t in set(children) | {race_child}:
+            if ch not in node.children:
+                node.add_child(ch, 0)
         gw.nodes[1] = node
         sent = {}
-        for ch in children:
-            await gw.send(Message(1, ch, 1, 0, 2, f"old{ch}"))
-            sent.setdefault(ch, []).append(f"old{ch}")
+        for ch, t in children:
+            await gw.send(Message(1, ch, 1, 0, t, f"old{ch}.{t}"))
+            sent.setdefault((ch, t), []).append(f"old{ch}.{t}")
         tr.write = slow_write
         wake = "1;255;3;0;32;\n" if version == "2.2" else "1;255;3;0;22;5\n"
         tr.reads.append(wake)
@@ -86,7 +87,7 @@ def native_race(version="2.2", race_child=1, at_write=0, children=(1,)):
             gate.set()
             await asyncio.wait_for(listener, 20)
             return None, None  # the release made fewer writes than at_write: no such schedule
-        await asyncio.wait_for(gw.send(Message(1, race_child, 1, 0, 2, "new")), 20)
+        await asyncio.wait_for(gw.send(Message(1, race_child[0], 1, 0, race_child[1], "new")), 20)
         sent.setdefault(race_child, []).append("new")
         gate.set()
         await asyncio.wait_for(listener, 20)
@@ -100,29 +101,36 @@ def native_race(version="2.2", race_child=1, at_write=0, children=(1,)):
     if writes is None:
         return True, None
     problems = []
-    for ch, vals in sent.items():
-        lines = [w for w in writes if w.startswith(f"1;{ch};1;0;2;")]
-        got = [w[len(f"1;{ch};1;0;2;"):].rstrip("\n") for w in lines]
+    for (ch, t), vals in sent.items():
+        lines = [w for w in writes if w.startswith(f"1;{ch};1;0;{t};")]
+        got = [w[len(f"1;{ch};1;0;{t};"):].rstrip("\n") for w in lines]
         if not got or got[-1] != vals[-1]:
-            problems.append(f"child {ch}: last sent {vals[-1]!r}, written {got}")
+            problems.append(f"child {ch} type {t}: last sent {vals[-1]!r}, written {got}")
         for g in set(got):
             if g not in vals:
-                problems.append(f"child {ch}: {g!r} written but never sent")
+                problems.append(f"child {ch} type {t}: {g!r} written but never sent")
             elif got.count(g) > vals.count(g):
-                problems.append(f"child {ch}: {g!r} written {got.count(g)} times, sent {vals.count(g)} times")
-    return (not problems), {"version": version, "buffered_children": list(children), "racing_send_to_child": race_child,
+                problems.append(f"child {ch} type {t}: {g!r} written {got.count(g)} times, sent {vals.count(g)} times")
+    return (not problems), {"version": version, "buffered_keys(child,type)": list(children), "racing_send_to(child,type)": race_child,
                            "held_in_release_write": at_write, "writes": writes, "problems": problems}
 
 
+def _k(x):
+    return x if isinstance(x, tuple) else (x, 2)
+
+
+# (buffered keys, key of the racing send, release write in which the listener is held); a key is a child (value type 2) or (child, type)
 SCHEDULES = [((1,), 1, 0), ((0, 1), 0, 0), ((0, 1), 1, 0), ((0, 1), 0, 1), ((0, 1), 1, 1), ((0, 1), 2, 0), ((0, 1), 2, 1),
-             ((0, 1, 2), 2, 0), ((0, 1, 2), 0, 2), ((0, 1, 2), 1, 1)]
+             ((0, 1, 2), 2, 0), ((0, 1, 2), 0, 2), ((0, 1, 2), 1, 1),
+             # keys that share node and child and differ in the value type only
+             (((0, 2), (0, 3)), (0, 3), 0), (((0, 2), (0, 3)), (0, 2), 1), (((0, 2),), (0, 3), 0), (((0, 2), (0, 3), (1, 2)), (0, 3), 1)]
 
 
 def native_sweep(versions=("2.0", "2.1", "2.2")):
     n = 0
     for v in versions:
         for children, race, at in SCHEDULES:
-            ok, info = native_race(v, race, at, children)
+            ok, info = native_race(v, _k(race), at, tuple(_k(c) for c in children))
             n += 1
             if not ok:
                 return info, n
